@@ -176,7 +176,7 @@ def make_settings(scenario):
 
 
 def run_session(scenario, schedule, clients=None, fault=None, kernel_hook=None, max_steps=400000, keep_log=False,
-                clients_required=True):
+                clients_required=True, trace=None):
     """Runs one simulated session. clients: optional list of 4 callables (seat -> task function) overriding the
     reference clients.  Returns a Result with: outcome (kernel Outcome), server_exc, client_exc {seat: exc},
     lines {conn label: [(dir, text)]}, sends (raw), output_text (or None), accept_order, client_state."""
@@ -189,6 +189,8 @@ def run_session(scenario, schedule, clients=None, fault=None, kernel_hook=None, 
     kernel = Kernel(schedule if callable(schedule) else make_chooser(schedule), max_steps=max_steps)
     kernel.keep_log = keep_log
     kernel.eager_timeouts = bool(schedule.get('eager', True)) if isinstance(schedule, dict) else bool(getattr(schedule, 'eager', True))
+    if trace is not None:            # line-level scheduling inside selected functions of the server (files, function names)
+        kernel.trace_files, kernel.trace_funcs = tuple(trace[0]), tuple(trace[1])
     if kernel_hook is not None:
         kernel_hook(kernel)
     res = Result()
